@@ -101,5 +101,30 @@ func (c *FnCtx) lookup(fr *frame, st *State, guard string, x *ssa.Lookup) {
 }
 
 func (c *FnCtx) rangeNext(fr *frame, st *State, guard string, instr ssa.Instruction) {
-	c.fail("range over map/string is outside the subset (%s in %s)", instr, funcKey(fr.fn))
+	switch x := instr.(type) {
+	case *ssa.Range:
+		if _, ok := x.X.Type().Underlying().(*types.Map); !ok {
+			c.fail("range over string is outside the subset (%s in %s)", instr, funcKey(fr.fn))
+		}
+		c.setVal(fr, x, c.val(fr, x.X)) // the iterator is represented by the map itself
+	case *ssa.Next:
+		if x.IsString {
+			c.fail("range over string is outside the subset (%s in %s)", instr, funcKey(fr.fn))
+		}
+		rg := x.Iter.(*ssa.Range)
+		mt := rg.X.Type().Underlying().(*types.Map)
+		m := c.val(fr, x.Iter)
+		d, v := c.mapRegions(mt)
+		// some key of the map, or exhaustion: order and completeness of the iteration are not modelled
+		// (sound for safety and ghost-balance obligations; no claim that every key is visited)
+		ok := c.fresh("rng_ok", SBool)
+		ks := c.sortOf(mt.Key())
+		k := Term{S: c.fresh("rng_key", ks), Sort: ks, T: mt.Key()}
+		c.typeFacts(st, k, mt.Key())
+		c.assume("", fmt.Sprintf("(=> %s (select (select %s %s) %s))", ok, c.get(st, d), m.S, k.S))
+		val := Term{S: fmt.Sprintf("(select (select %s %s) %s)", c.get(st, v), m.S, k.S), Sort: c.sortOf(mt.Elem()), T: mt.Elem()}
+		val = c.named(val, "rng_val")
+		c.loadFacts(st, val)
+		c.setVal(fr, x, Tuple{Term{S: ok, Sort: SBool}, k, val})
+	}
 }
